@@ -53,6 +53,7 @@ func runC10(c *Ctx) {
 	c.Rule("C10.R2", "WIRE", "handler looked up with the record type that is passed to it; handlers store their parameters", 2)
 	c.Rule("C10.R3", "WIRE", "PTR value is fully qualified", 1)
 	c.Rule("C10.R4", "PANIC", "parser functions: all index/slice operations in range", 1)
+	c.Rule("C10.R7", "TBL", "numbers are parsed with the width of the field they are stored in (out-of-range values are rejected, not truncated)", 1)
 	c.Rule("C10.R6", "WIRE", "a rule's rewrite is the parser's result for its own value (no cache or shared object in between)", 1)
 	c.Rule("C10.R5", "EFF", "parser writes no shared memory; handler table written only by its initialiser", 2)
 
@@ -481,6 +482,85 @@ func runC10(c *Ctx) {
 			}
 		}
 		c.Check(bad == "", "C10.R4", "$dnsrewrite parser: all index/slice operations in range", ldr.Pos(), fmt.Sprintf("%d sites in %d functions", len(res), len(scope)), bad)
+	}
+
+	// ---------- R7: numbers are parsed with the width of the field they are stored in ----------
+	{
+		n := 0
+		bad := ""
+		intBits := func(t types.Type) (int, bool) {
+			b, ok := t.Underlying().(*types.Basic)
+			if !ok || b.Info()&types.IsInteger == 0 {
+				return 0, false
+			}
+			return intWidth(b), true
+		}
+		for _, fn := range groupFuncs(c.P, scope...) {
+			eachInstr(fn, func(_ *ssa.BasicBlock, in ssa.Instruction) {
+				cv, ok := in.(*ssa.Convert)
+				if !ok {
+					return
+				}
+				dw, ok1 := intBits(cv.Type())
+				sw, ok2 := intBits(cv.X.Type())
+				if !ok1 || !ok2 || dw >= sw {
+					return
+				}
+				// a narrowing conversion: where does the number come from?
+				var src ssa.Value = cv.X
+				for i := 0; i < 4; i++ {
+					if ph, isPhi := src.(*ssa.Phi); isPhi && len(ph.Edges) > 0 {
+						src = ph.Edges[0]
+					} else if ld, isLd := src.(*ssa.UnOp); isLd && ld.Op == token.MUL {
+						// a local cell: its single store
+						if al, isAl := ld.X.(*ssa.Alloc); isAl && al.Referrers() != nil {
+							var st ssa.Value
+							k := 0
+							for _, r := range *al.Referrers() {
+								if s, isSt := r.(*ssa.Store); isSt && s.Addr == ssa.Value(al) {
+									st = s.Val
+									k++
+								}
+							}
+							if k == 1 {
+								src = st
+								continue
+							}
+						}
+						break
+					} else {
+						break
+					}
+				}
+				ex, isEx := src.(*ssa.Extract)
+				if !isEx {
+					return
+				}
+				call, isCall := ex.Tuple.(*ssa.Call)
+				if !isCall || call.Call.StaticCallee() == nil {
+					return
+				}
+				name := calleeName(call.Call.StaticCallee())
+				if name != "strconv.ParseUint" && name != "strconv.ParseInt" {
+					return
+				}
+				n++
+				k, isK := call.Call.Args[2].(*ssa.Const)
+				if !isK || k.Value == nil {
+					if bad == "" {
+						bad = c.P.Pos(cv.Pos()) + ": UNDECIDED: the bit size handed to " + name + " is not a constant"
+					}
+					return
+				}
+				if bits := k.Int64(); (bits == 0 || int(bits) > dw) && bad == "" {
+					bad = fmt.Sprintf("%s: %s parses with bit size %d but the value is then converted to a %d-bit field: a number that does not fit (e.g. %d) is accepted and silently truncated instead of rejected", c.P.Pos(cv.Pos()), name, bits, dw, (int64(1)<<uint(dw))+1)
+				}
+			})
+		}
+		if n == 0 && bad == "" {
+			bad = "UNDECIDED: no narrowing conversion of a parsed number found in the parser (the MX/SRV/SVCB fields are 16-bit)"
+		}
+		c.Check(bad == "", "C10.R7", "$dnsrewrite parser: parsed numbers fit the fields they are stored in", ldr.Pos(), fmt.Sprintf("%d narrowing conversion(s) of strconv results: bit size <= field width", n), bad)
 	}
 
 	// ---------- R6: a rule's rewrite is the parse of its own value ----------
